@@ -165,6 +165,7 @@ def _dynamic(ctx):
             else:
                 cls += "+minimal"
             via_elast = (n % 4 == 3)
+            datol = 1e-8
             generated = [i for i in range(21) if i not in S and numpy.any(numpy.abs(field[:, i]) > 1e-8)]
             dropped = [i for i in S if numpy.all(numpy.abs(field[:, i]) <= 1e-8)]
             nontriv = bool(generated or dropped)
@@ -187,7 +188,12 @@ def _dynamic(ctx):
                     df = FT.reindex(FT.make_frame(field, S, rng, shuffle=bool(n % 2)), ikind, rng)
                     cls += "+index:" + ikind
                     sample["row_index"] = ikind
-                    res = fill_cij(df, system)
+                    # the drop tolerance is an option (GPa): left at its default, or - with a component that runs from zero at one end
+                    # to 2..30 GPa at the other - set to 0.5 or 1.5, so that single entries of a component that must be kept lie below it
+                    datol = [1e-8, 0.5, 1.5][(n // 5) % 3] if "component-zero-at-one-end" in cls else 1e-8
+                    res = fill_cij(df, system) if datol == 1e-8 else fill_cij(df, system, drop_atol=datol)
+                    if datol != 1e-8:
+                        cls += f"+drop_atol={datol:g}"
                     out = FT.frame_moduli(res)
                     if len(res) != nrows or list(res.index) != list(df.index):
                         ctx.violation(f"dynamic:row-index-changed:{ikind}", f"{system}: the filled table has rows {list(res.index)[:4]}, the input {list(df.index)[:4]}", case_id, sample)
@@ -203,7 +209,7 @@ def _dynamic(ctx):
                 continue
             ctx.evaluation(f"{system}:{cls}", (system, n, tuple(S)), nontrivial=nontriv, sample=sample)
             ctx.count("fills_judged")
-            _check_result(ctx, system, field, S, out, case_id, cls)
+            _check_result(ctx, system, field, S, out, case_id, cls, drop_atol=(datol if not via_elast else 1e-8))
             # the same supplied set again in the same process, columns in another order and other values
             if not via_elast and len(S) > 1:
                 try:
